@@ -7,6 +7,14 @@ CHECKS = {
    technique="property-based testing (Hypothesis) with exhaustive crash-point and single-fault enumeration over the recorded syscall trace of the real qmail-queue",
    text="Real qmail-queue binary executed under an LD_PRELOAD interposer in a sandbox queue. Every generated (message, envelope, uid) is run once, then re-run for every crash point (before each mutating syscall) and every (call site x errno/short) fault of its own trace; post-crash images kept/lost/partial are rebuilt from fsync-time shadow copies. Oracle: exit 0 => visible and complete in every image; otherwise invisible or complete; documented exit codes; leftovers only in S1-S4; death timer armed first and below OSSIFIED.",
    note="Assumes crash granularity = system call, per-file loss of un-fsynced data, durable directory operations (conf-qmail), one fault per run. No absence proof: generated inputs plus fixed boundary inputs (buffer sizes 256/2048/8192, addresses 1001-1004)."),
+ "C05": dict(cat="exploration", design="5/C05", engine="in-process qmail-smtpd.c + reference receiver",
+   technique="bounded-exhaustive enumeration + seeded random generation + libFuzzer (coverage-guided) against a reference RFC 5321 receiver; round-trip oracle",
+   text="qmail-smtpd.c is #included into a harness (network reads replaced by a chunked memory reader, the queue by a recorder). blast() is compared with an independent reference receiver on ALL strings over {CR,LF,'.','x'} up to length 12 (14 thorough), every split into reads up to length 9 (10), random long streams, decode(encode(m)) round trips with a reference sender and with qmail-remote's encoder, and a libFuzzer campaign under ASan/UBSan.",
+   note="Exhaustive only up to the stated length over the 4(5)-letter significant alphabet; longer inputs are sampled. The '.'+bare-CR line is unspecified and both results are accepted (counted as slack). The end-to-end path through the real binary is exercised by C07."),
+ "C06": dict(cat="exploration", design="5/C06", engine="in-process qmail-remote.c + reference receiver + qmail-smtpd decoder",
+   technique="bounded-exhaustive enumeration + seeded random generation + libFuzzer; oracle = structural invariants of the wire payload, reference receiver, differential against qmail-smtpd's decoder",
+   text="qmail-remote.c blast() runs in-process on ALL messages over {CR,LF,'.','x'} up to length 12 (14), every chunking of file reads up to length 9 (10), random long messages around the 1024-byte buffer, injected read errors, and libFuzzer. Oracle: CRLF.CRLF exactly once as suffix, no bare LF, reference receiver and qmail-smtpd both consume exactly the payload and return the message's lines, CR-free messages byte-identical, partial final line => D, read error => Z.",
+   note="Exhaustive only up to the stated length; bare CR in a queued message is taken as a line break (as the shipped test_blast_barecr fixes). Found and fixed F1 (fix: commit 024fda4)."),
 }
 NOT_YET = {}
 def main():
